@@ -55,8 +55,13 @@ PROPS = {
                            (R, r"(null|deflate|bzip2|xz)_read_block", "short"),
                            (R, r"(_iter_avro_records|_iter_avro_blocks|Block\.__iter__)", "short")],
                 lemmas=["wf_branch_at"], bounded="C06", level="other"),
-    "C07": dict(functions=[(W, r"(null|deflate|bzip2|xz)_write_block", "default"), (W, r"Writer\.(dump|write|flush|write_block)", ".*")],
-                lemmas=[], bounded="C07", level="other"),
+    # C07: ... and behaviour `anydatum` of every encoder method and writer (generated: contracts/write_anydatum.py):
+    # whatever the datum, they only ever append -- also when they raise -- which is what Writer.write relies on to
+    # leave no trace of a failed write (this was an assumed contract before)
+    "C07": dict(functions=[(W, r"(null|deflate|bzip2|xz)_write_block", "default"), (W, r"Writer\.(dump|write|flush|write_block)", ".*"),
+                           (ENC, r"BinaryEncoder\..*", "anydatum"),
+                           (W, r"write_(null|boolean|int|long|float|double|bytes|utf8|fixed|enum|array|map|union|record|data)", "anydatum")],
+                lemmas=["wf_branch_at", "dd_branch_at", "rec_branch_shape", "valid_rec_is_dict"], bounded="C07", level="other"),
     # C08: alignment under schema resolution (behaviour `consume`: with ANY reader schema and options a reader that returns
     # has consumed exactly one value of the writer's schema), the promotion pieces, the enum default; the resolved VALUES
     # (field matching, defaults, unions) are bounded
